@@ -36,6 +36,36 @@ CLAIMED = {
    note=ENGINE_NOTE + " Real-signal delivery is not used in the quick tier."),
 }
 
+CACHING_NOTE = ("Trusted: TLC; the harness stores (in-memory, logical clock, contents are terms) meeting the property's stated assumptions; the "
+                "linearization of the event log (every effect and its record under one lock). Caching.tla is model-checked exhaustively only for "
+                "the small scenarios and clock bound listed in the evidence; histories on the real library are seeded samples plus enumerated cuts.")
+CLAIMED.update({
+ "C03": dict(engine="caching", cat="model_checking", ref="6.C03",
+   technique="TLC: Caching.tla invariant SameAsFromScratch over all histories of small scenarios; histories executed on the real library validated event by event by the trace monitor CachingTrace.tla (values are terms compared with from-scratch evaluation)",
+   text="Caching.tla models the stale check, the physical-plan transformation and store effects over histories of runs, cut-short runs, source updates and deletions; TLC checks that every successful run ends with from-scratch output and store contents. Thousands of histories on the real uberjob.run (with Registry, all option combinations, injected faults) are replayed against the same specification by TLC, which evaluates the invariant in every recorded state.",
+   note=CACHING_NOTE),
+ "C05": dict(engine="caching", cat="model_checking", ref="6.C05",
+   technique="TLC: StaleSet (transcription of the stale check) = OutOfDate (declarative) in every reachable store state; ExactlyStaleRebuilt / SecondRunNoOp invariants; trace validation of real histories (call/read/write in plan, once, consumed) and dry-run plan comparison",
+   text="Two independent definitions of staleness are proved equal by TLC on all reachable store states of small scenarios; per-run counters of real executions are checked against the plan Caching.tla computes from the recorded store state: writes exactly for out-of-date stored values once, reads at most once and only if consumed, unstored calls only where needed, a repeated run is a no-op.",
+   note=CACHING_NOTE),
+ "C08": dict(engine="caching", cat="model_checking", ref="6.C08",
+   technique="TLC: LooksFreshImpliesCorrect and CompletedWritesKept as state invariants of Caching.tla in every state incl. mid-run and after Abort; real runs cut at every operation index (before/after effect, exception / process death) validated by CachingTrace.tla",
+   text="The C08 invariant is required in every state of Caching.tla - in the middle of runs and after a cut at any point - and is evaluated by TLC in every recorded state of real histories in which runs are cut at the k-th call start, read, write (before and after taking effect) or modified-time query, as an exception and as 'dead after the cut'; the follow-up run is validated as in C03.",
+   note=CACHING_NOTE + " Process death at file-operation granularity for file-backed stores is covered under C11."),
+ "C09": dict(engine="caching", cat="model_checking", ref="6.C09",
+   technique="TLC: PlanOrderSufficient (the physical plan's order implies the directly stated write->read->use clauses) and DownstreamRebuilt; real runs with normalising stores validated by CachingTrace.tla (consumers receive read() values, ordering clauses per event)",
+   text="The write -> read back -> use ordering is stated directly as guard clauses and shown by TLC to follow from the physical plan; on the real library, stores whose read returns a distinguishable wrapper make 'the consumer got the in-memory value' visible in the term every call returns, and the recorded event order is checked clause by clause.",
+   note=CACHING_NOTE),
+ "C13": dict(engine="caching", cat="model_checking", ref="6.C13",
+   technique="Frame condition of Caching.tla (a run changes only stores) checked on real histories: structural digests of the caller's Plan/Registry before and after every run, dry run and render are events of the validated traces; concurrent runs and copy independence driven separately",
+   text="Every history step executed for the caching family (success, failure in stale check or run, cut, dry run, render with level/registry) records an identity-preserving structural digest of the caller's Plan and Registry before and after; the monitor clause c13_plan_and_registry_unchanged must hold for each. Concurrent runs of one plan and Plan.copy / Registry.copy independence are exercised by a dedicated driver.",
+   note=CACHING_NOTE + " The digest covers node identities, scopes, fn/value identities, stack frames, the edge multiset with keys, graph/node attribute dicts and registry entries."),
+ "C14": dict(engine="caching", cat="translation_validation", ref="6.C14",
+   technique="Translation validation: the physical plan returned by dry_run=True is projected to its executable operations and ancestor sets and compared by TLC with PlanOps/ExecAnc of Caching.tla; executing the returned plan alone is validated as a legal run from the same store state",
+   text="For each (scenario, store state, fresh_time, output) reached by histories, the dry run may only query modified times (monitor clause), its returned plan must equal the plan the specification computes (operations and transitive order), and executing that plan without a registry must be accepted by the monitor as the real run from that state with the from-scratch output.",
+   note=CACHING_NOTE),
+})
+
 checks = []
 for i in ids:
     if i not in CLAIMED:
@@ -66,6 +96,8 @@ m = {
     "engines": [
         {"name": "engine", "path": "/verif/spec/Engine.tla", "serves_properties": ["C01", "C04", "C06", "C07", "C10", "C17"],
          "kind_free_text": "TLA+ Engine.tla refining RunAbs.tla, checked by TLC; RunAbsTrace.tla monitor over executions of the real code under vf/detsched.py"},
+        {"name": "caching", "path": "/verif/spec/Caching.tla", "serves_properties": ["C03", "C05", "C08", "C09", "C13", "C14"],
+         "kind_free_text": "TLA+ Caching.tla (stale check, physical plan, store histories) checked by TLC; CachingTrace.tla monitor over histories executed on the real library with term-valued harness stores"},
     ],
     "checks": checks,
     "not_applicable": na,
